@@ -96,7 +96,9 @@ def load_world():
             # the flavour number the coupling is evaluated in: the requested one, else the default flow at that scale (real Atlas.normalize)
             eff = self.atlas.normalize((scale_to, nf_to))[1]
             w.calls.a.append((scale_to, nf_to, eff))
-            return (SR.var("as_%d" % n), SR.var("aem_%d" % n))
+            out = np.empty(2, dtype=object)  # the real Couplings.a returns an ndarray (callers may .copy() it)
+            out[0], out[1] = SR.var("as_%d" % n), SR.var("aem_%d" % n)
+            return out
 
         def a_s(self, scale_to, nf_to=None):
             return self.a(scale_to, nf_to)[0]
